@@ -49,8 +49,14 @@ pub fn cores() -> Vec<(&'static str, Exp)> {
         // three operands with different ranges, the first one dominated (pruned) before two retained ones
         ("max{b-5,x,2c}", Exp::Max(vec![bin(BinOp::Sub, b(), num(5.0)), x(), bin(BinOp::Mul, num(2.0), c())])),
         ("min{b+5,x,2c}", Exp::Min(vec![bin(BinOp::Add, b(), num(5.0)), x(), bin(BinOp::Mul, num(2.0), c())])),
+        // the same block twice with opposite orientations (a lowering that is shared between the
+        // occurrences must be exact)
+        ("max{x,b}/2-max{x,b}", bin(BinOp::Sub, bin(BinOp::Div, Exp::Max(vec![x(), b()]), num(2.0)), Exp::Max(vec![x(), b()]))),
+        ("min{x,1}-2min{x,1}", bin(BinOp::Sub, Exp::Min(vec![x(), num(1.0)]), bin(BinOp::Mul, num(2.0), Exp::Min(vec![x(), num(1.0)])))),
+        ("abs{x}/2-abs{x}", bin(BinOp::Sub, bin(BinOp::Div, Exp::Abs(x().to_box()), num(2.0)), Exp::Abs(x().to_box()))),
         // sums of n terms divided by n: rendered as avg blocks by the text engines
         ("(x+b)/2", bin(BinOp::Div, bin(BinOp::Add, x(), b()), num(2.0))),
+        ("(x+2+4+b)/4", bin(BinOp::Div, bin(BinOp::Add, bin(BinOp::Add, bin(BinOp::Add, x(), num(2.0)), num(4.0)), b()), num(4.0))),
         ("(abs{x}+1+b+c)/4", bin(BinOp::Div, bin(BinOp::Add, bin(BinOp::Add, bin(BinOp::Add, Exp::Abs(x().to_box()), num(1.0)), b()), c()), num(4.0))),
     ]
 }
@@ -90,7 +96,7 @@ pub fn decls() -> Vec<(&'static str, Vec<(String, Dom)>, Vec<SrcCons>)> {
     ]
 }
 
-pub const RHS: [f64; 5] = [-1.0, 0.0, 0.5, 1.0, 2.0];
+pub const RHS: [f64; 7] = [-3.0, -1.0, 0.0, 0.5, 1.0, 2.0, 3.0];
 pub const RELS: [Rel; 3] = [Rel::Le, Rel::Ge, Rel::Eq];
 
 #[derive(Clone)]
@@ -108,7 +114,7 @@ pub fn family_a_size(depth: usize, quick: bool) -> u64 {
 pub fn family_a(i: u64, depth: usize, quick: bool) -> Case {
     let cs = cores();
     let ds: Vec<_> = if quick { decls().into_iter().enumerate().filter(|(k, _)| [0, 2, 4, 5].contains(k)).map(|(_, d)| d).collect() } else { decls() };
-    let rhs_menu: Vec<f64> = if quick { vec![0.0, 0.5, 2.0] } else { RHS.to_vec() };
+    let rhs_menu: Vec<f64> = if quick { vec![0.0, 0.5, 3.0] } else { RHS.to_vec() };
     let mut d = Digits(i);
     let side = d.pick(2);
     let rhs = *d.of(&rhs_menu);
@@ -190,6 +196,22 @@ pub fn family_b_trees(max_n: usize) -> Vec<Exp> {
     let mut all = vec![];
     for n in 0..=max_n {
         all.extend(logic_trees(n, &mut memo));
+    }
+    // every binary logic operator over operands that carry 0, 1 or 2 negations (3 to 5 operator nodes:
+    // rewrites of negated operands such as contraposition or De Morgan)
+    let negs = |v: &str| -> Vec<Exp> {
+        let x = var(v);
+        vec![x.clone(), Exp::Not(x.clone().to_box()), Exp::Not(Exp::Not(x.to_box()).to_box())]
+    };
+    for a in negs("b") {
+        for b in negs("c") {
+            all.push(Exp::And(vec![a.clone(), b.clone()]));
+            all.push(Exp::Or(vec![a.clone(), b.clone()]));
+            all.push(Exp::Xor(a.clone().to_box(), b.clone().to_box()));
+            all.push(Exp::Implies(a.clone().to_box(), b.clone().to_box()));
+            all.push(Exp::Iff(a.clone().to_box(), b.clone().to_box()));
+            all.push(Exp::Not(Exp::Implies(a.clone().to_box(), b.clone().to_box()).to_box()));
+        }
     }
     all
 }
@@ -304,7 +326,8 @@ pub fn cores_d() -> Vec<(&'static str, Exp)> {
         ("max{x,0}-max{y,0}", bin(BinOp::Sub, Exp::Max(vec![x(), num(0.0)]), Exp::Max(vec![y(), num(0.0)]))),
     ]
 }
-const RHS_D: [f64; 3] = [0.0, 0.5, 2.0];
+/// includes the ends of the ranges of w (2, 4) and y (-1, 2.5): ties between a bound and the row limit
+const RHS_D: [f64; 6] = [-1.0, 0.0, 0.5, 2.0, 2.5, 4.0];
 pub fn family_d_size(depth: usize) -> u64 {
     let nctx: u64 = if depth == 0 { 1 } else { CTX_NAMES.len() as u64 };
     cores_d().len() as u64 * nctx * 3 * RHS_D.len() as u64 * 2 * 2
@@ -565,7 +588,7 @@ pub fn run(mut run: Run) -> ! {
     run.case_timeout_s = 60.0;
     let quick = run.quick();
     let depth = if quick { 1 } else { 2 };
-    run.rule = format!("Model values built through the public constructors (usage marks as the transformer sets them): family A = {} cores (abs/min/max nests, logic values in arithmetic, dominated and equal operands) x every chain of <= {depth} contexts from 12 (positive/negative scale, negation, subtraction on either side, division by +-2, abs, min, max, minus x) x 3 relations x 5 constants x both sides x 8 declaration forms (declared, row-derived, scaled-row-derived, unbounded, half-bounded, integer); family B = every logic tree with <= {} operator nodes over b,c,d,0,1 (incl. n-ary and empty and/or) x bare assertion and 30 comparison forms; family C = 12 bound feeders x 15 consumers; family D = 14 cores over three variables with different ranges (x real, w real, y real or integer; min/max with three operands, nested blocks, sums of blocks) in every context (thorough) x 3 relations x 3 constants x both sides, decided for every real x on every grid line of the other continuous variables; each compiled model is decided exactly: all assignments of the discrete variables x every cell (breakpoints, midpoints, beyond-ends) of the region partition of the continuous one; distinct = model text; non-trivial = compiled with at least one auxiliary or changed row count", cores().len(), if quick { 1 } else { 2 });
+    run.rule = format!("Model values built through the public constructors (usage marks as the transformer sets them): family A = {} cores (abs/min/max nests, logic values in arithmetic, dominated and equal operands) x every chain of <= {depth} contexts from 12 (positive/negative scale, negation, subtraction on either side, division by +-2, abs, min, max, minus x) x 3 relations x 7 constants (incl. the ends +-3 of the declared ranges) x both sides x 8 declaration forms (declared, row-derived, scaled-row-derived, unbounded, half-bounded, integer); family B = every logic tree with <= {} operator nodes over b,c,d,0,1 (incl. n-ary and empty and/or), plus every binary logic operator over operands with 0, 1 or 2 negations, x bare assertion and 30 comparison forms; family C = 12 bound feeders x 15 consumers; family D = 14 cores over three variables with different ranges (x real, w real, y real or integer; min/max with three operands, nested blocks, sums of blocks) in every context (thorough) x 3 relations x 6 constants (incl. the range ends of w and y) x both sides, decided for every real x on every grid line of the other continuous variables; each compiled model is decided exactly: all assignments of the discrete variables x every cell (breakpoints, midpoints, beyond-ends) of the region partition of the continuous one; distinct = model text; non-trivial = compiled with at least one auxiliary or changed row count", cores().len(), if quick { 1 } else { 2 });
     run.assume("exact source semantics (refsem) and exact projection of the linear model: integer auxiliaries enumerated, continuous auxiliaries by exact LP; the projection's interval endpoints are added to the test points, so S = L is decided on the whole real line of one continuous variable; extra continuous variables are checked on a 9-point rational grid (slice mode)");
     run.assume("models in which the continuous variable occurs under a logic operator, or whose source is undefined at a test point, are skipped and counted");
     let sa = family_a_size(depth, quick);
